@@ -364,7 +364,23 @@ fn drive_engine(id: &str, flavour: &str, rng: &mut Rng, maxops: u64) -> Runner {
             r.op(&json!({"k": "tx", "c": "feed", "m": "append_price", "s": "owner", "a": {"key": key, "price": price, "t": now}}));
         } else {
             let dirq = if rng.chance(50) { "add" } else { "rem" };
-            match rng.below(14) {
+            match rng.below(30) {
+                14 => r.op(&json!({"k": "query", "c": "engine", "q": "state", "a": {}})),
+                15 => r.op(&json!({"k": "query", "c": "engine", "q": "config", "a": {}})),
+                16 => r.op(&json!({"k": "query", "c": "engine", "q": "pauser", "a": {}})),
+                17 => r.op(&json!({"k": "query", "c": "engine", "q": "whitelist", "a": {}})),
+                18 => r.op(&json!({"k": "query", "c": "engine", "q": "is_whitelisted", "a": {"address": t}})),
+                19 => r.op(&json!({"k": "query", "c": "engine", "q": "all_positions", "a": {"trader": t}})),
+                20 => r.op(&json!({"k": "query", "c": "engine", "q": "balance_with_funding_payment", "a": {"trader": t}})),
+                21 => r.op(&json!({"k": "query", "c": &v, "q": "state", "a": {}})),
+                22 => r.op(&json!({"k": "query", "c": &v, "q": "config", "a": {}})),
+                23 => r.op(&json!({"k": "query", "c": &v, "q": "owner", "a": {}})),
+                24 => r.op(&json!({"k": "query", "c": &v, "q": "output_price", "a": {"dir": dirq, "amount": rng.range(0, 3000)}})),
+                25 => r.op(&json!({"k": "query", "c": "ifund", "q": *rng.pick(&["config", "owner", "get_all_vamm", "get_all_vamm_status"]), "a": {}})),
+                26 => r.op(&json!({"k": "query", "c": "fpool", "q": *rng.pick(&["config", "owner", "get_token_list", "get_token_length", "is_token"]), "a": {}})),
+                27 => r.op(&json!({"k": "query", "c": &v, "q": *rng.pick(&["input_twap", "output_twap", "input_price", "input_amount", "output_amount"]), "a": {"dir": dirq, "amount": 0}})),
+                28 => r.op(&json!({"k": "query", "c": &v, "q": "twap_price", "a": {"interval": 0}})),
+                29 => r.op(&json!({"k": "query", "c": "ifund", "q": "get_vamm_status", "a": {"vamm": v}})),
                 0 => r.op(&json!({"k": "query", "c": "engine", "q": "margin_ratio", "a": {"vamm": v, "trader": t}})),
                 1 => r.op(&json!({"k": "query", "c": "engine", "q": "free_collateral", "a": {"vamm": v, "trader": t}})),
                 2 => r.op(&json!({"k": "query", "c": &v, "q": "output_twap", "a": {"dir": dirq, "amount": rng.range(1, 3000)}})),
